@@ -1460,18 +1460,6 @@ theorem searchDelim_skip {bnd : Bytes} {o : Bool} (S : Bytes) (k : Nat)
       rw [searchDelim_cons_none h0, List.drop_succ_cons, ih t (fun j hj => by simpa using h (j + 1) (by omega)),
         shift_shift]
 
-/-- what the retained `_search_position` must guarantee: the first delimiter, when it is not the
-closing one, is no longer than `len(boundary) + SEARCH_EXTRA_LENGTH` (line breaks and transport
-padding included) -/
-def PadOk (bnd S : Bytes) : Prop :=
-  match searchDelim bnd true S with
-  | some (s, e, false) => e - s ≤ bnd.length + searchExtra
-  | _ => True
-
-instance (bnd S : Bytes) : Decidable (PadOk bnd S) := by
-  unfold PadOk
-  split <;> infer_instance
-
 theorem searchExtra_eq : searchExtra = 8 := by decide
 
 theorem searchDelim_of_match_drop {bnd : Bytes} {o : Bool} {S : Bytes} {j n : Nat} {f : Bool}
@@ -1486,40 +1474,7 @@ theorem searchDelimFrom_eq_shift (bnd : Bytes) (o : Bool) (pos : Nat) (buf : Byt
   | none => rfl
   | some v => rcases v with ⟨s, e, f⟩; rfl
 
-/-- **The retained search position is irrelevant (PREAMBLE).** After an unsuccessful search of
-buffer `b`, searching `b ++ c` from `len(b) - len(boundary) - SEARCH_EXTRA_LENGTH` finds the same
-first delimiter as searching from 0, provided the first delimiter is not longer than the retained
-tail (`PadOk`). -/
-theorem searchPos_irrelevant_lemma {bnd b c : Bytes} (hnone : searchDelim bnd true b = none)
-    (hpad : PadOk bnd (b ++ c)) :
-    searchDelimFrom bnd true (b.length - bnd.length - searchExtra) (b ++ c) =
-      searchDelim bnd true (b ++ c) := by
-  rw [searchDelimFrom_eq_shift]
-  symm
-  apply searchDelim_skip
-  intro j hj
-  cases hS : searchDelim bnd true (b ++ c) with
-  | none => exact searchDelim_none_drop hS j
-  | some v =>
-    rcases v with ⟨s, e, f⟩
-    rcases searchDelim_some_iff hS with ⟨hs1, hs2, hmatch, hbefore⟩
-    have hge : b.length - bnd.length - searchExtra ≤ s := by
-      apply Nat.le_of_not_lt
-      intro hlt
-      have hsb : s ≤ b.length := by omega
-      rw [List.drop_append_of_le_length hsb] at hmatch
-      have hxlen : (b.drop s).length = b.length - s := by simp
-      rw [searchExtra_eq] at hlt
-      cases f with
-      | true =>
-        rcases matchDelimAt_restrict_true hmatch (by rw [hxlen]; omega) with ⟨n', hn'⟩
-        exact searchDelim_of_match_drop hn' hnone
-      | false =>
-        have hp : e - s ≤ bnd.length + searchExtra := by simpa [PadOk, hS] using hpad
-        rw [searchExtra_eq] at hp
-        have := matchDelimAt_restrict_false hmatch (by rw [hxlen]; omega)
-        exact searchDelim_of_match_drop this hnone
-    exact hbefore j (by omega)
+-- (PREAMBLE: see Lemmas/SearchPos.lean — the rule repaired for F01c, sound without a padding bound.)
 
 /-! ### the retained search position (PART): blank-line search -/
 
